@@ -136,3 +136,25 @@ MUTANTS["C18"] = [
     M("parser_remembers_line", PX, "        instruction_form = InstructionForm(line=line, line_number=line_number)\n        result = None\n", "        instruction_form = InstructionForm(line=line, line_number=line_number)\n        self.last_line = line\n        result = None\n", "R3"),
     M("global_memo", CLI, "    isa = MachineModel.get_isa_for_arch(arch)\n    if isa == \"x86\":\n        return ParserX86ATT()", "    SUPPORTED_ARCHS.append(arch)\n    isa = MachineModel.get_isa_for_arch(arch)\n    if isa == \"x86\":\n        return ParserX86ATT()", "R2"),
 ]
+
+MUTANTS["C13"] = [
+    M("revert_latency_lcd", FE, '"LatencyLCD": float(lcd_lines.get(x.line_number, 0.0)),', '"LatencyLCD": float(x.latency_lcd),', "R1", "revert of the fix"),
+    M("dict_cp_from_latency", FE, '"LatencyCP": float(x.latency_cp),', '"LatencyCP": float(x.latency),', "R1"),
+    M("dict_summary_cp_other", FE, '"CriticalPath": sum([x.latency_cp for x in cp_kernel]),', '"CriticalPath": sum([x.latency for x in cp_kernel]),', "R1"),
+    M("text_cp_cell_all_lines", FE, "cp_kernel if line_number in cp_lines else None,", "cp_kernel,", "R1"),
+    M("dict_summary_lcd_const", FE, '"LCD": lcd_sum,\n', '"LCD": 0.0,\n', "R1"),
+    M("lcd_list_truncated", FE, "        for dep in sorted(dep_dict.keys()):", "        for dep in sorted(dep_dict.keys())[:1]:", "R1"),
+    M("dict_other_graph", CLI, "            frontend.full_analysis_dict(\n                kernel,\n                kernel_graph,", "            frontend.full_analysis_dict(\n                parsed_code,\n                kernel_graph,", "R2"),
+    M("dict_no_lcd_warning", CLI, "                lcd_warning=kernel_graph.timed_out,\n            ),\n            args.yaml_out,", "                lcd_warning=False,\n            ),\n            args.yaml_out,", "R2"),
+    M("unknown_branch_lt_flag", FE, "        if not ignore_unknown and INSTR_FLAGS.TP_UNKWN in [", "        if not ignore_unknown and INSTR_FLAGS.LT_UNKWN in [", "R3"),
+    M("unknown_count_all_lines", FE, "[instr.flags for instr in kernel if INSTR_FLAGS.TP_UNKWN in instr.flags]", "[instr.flags for instr in kernel if instr.flags]", "R3"),
+    M("x_mark_other_flag", FE, 'string_result += "X" if INSTR_FLAGS.TP_UNKWN in flag_obj else ""', 'string_result += "X" if INSTR_FLAGS.LT_UNKWN in flag_obj else ""', "R3"),
+    M("ignore_unknown_not_threaded", CLI, "            ignore_unknown=ignore_unknown,\n", "            ignore_unknown=False,\n", "R3"),
+    M("arch_warning_inverted", CLI, "    print_arch_warning = False if args.arch else True", "    print_arch_warning = True if args.arch else False", "R4"),
+    M("length_threshold", CLI, "len(kernel) == len(parsed_code) and len(kernel) > 100", "len(kernel) == len(parsed_code) and len(kernel) > 1000", "R4"),
+    M("length_with_lines", CLI, "        print_length_warning = False\n", "        print_length_warning = len(kernel) > 100\n", "R4"),
+    M("header_swapped", FE, '        warnings += arch_text if arch_warning else ""', '        warnings += arch_text if length_warning else ""', "R4"),
+    M("default_arch_wrong_isa", CLI, '    "aarch64": "V2",', '    "aarch64": "ZEN4",', "R5"),
+    M("isa_table_row_missing", HW, '            "tsv110": "aarch64",\n', "", "R5"),
+    M("supported_without_file", CLI, '    "V2",\n]', '    "V2",\n    "V3",\n]', "R5"),
+]
